@@ -116,6 +116,75 @@ DECLARED = {  # frozen: constructor argument -> (bits, signed); see Lang/MsgCode
 }
 
 
+def message_object_history(ctx, t, msgs):
+    """One message OBJECT through a history: len(m), bytes(m), change public fields in place (values[i] = ...,
+    values replaced, address / subroutine / a fixed field re-assigned), bytes(m) again: the second serialisation
+    must decode to the object's current content (a packed form cached on the object would show here)."""
+    M = t["M"]
+    rng = ctx.rng
+    done = 0
+    for direction, m, pv in msgs:
+        deser = M.deserialize_host_msg if direction == "host" else M.deserialize_return_msg
+        try:
+            len(m)
+            bytes(m)
+        except Exception:
+            continue
+        change = None
+        try:
+            if pv[0] == "arr":
+                vals = list(pv[2])
+                if vals and rng.random() < 0.6:
+                    i = rng.randrange(len(vals))
+                    nv = None if vals[i] is not None else rng.randint(-2 ** 31, 2 ** 31 - 1)
+                    m.values[i] = nv
+                    vals[i] = nv
+                    change = ["values[i]=", i, nv]
+                elif rng.random() < 0.5:
+                    vals = vals + [rng.choice([None, 0, -1, 7])]
+                    m.values = list(vals)
+                    change = ["values=", "one entry appended"]
+                else:
+                    addr = rng.choice([0, 3, 2 ** 31 - 1, -1])
+                    m.address = addr
+                    pv = ("arr", addr, vals)
+                    change = ["address=", addr]
+                want = ("arr", pv[1], vals)
+            elif pv[0] == "sub":
+                body = bytes(rng.randint(0, 255) for _ in range(rng.choice([0, 4, 11, 18])))
+                m.subroutine = body
+                want = ("sub", list(body))
+                change = ["subroutine=", len(body)]
+            else:
+                row = next(r for r in (t["host"] + t["ret"]) if r["kind"] == "fixed" and r["name"] == pv[1])
+                leaves = [lf for lf in row["leaves"][1:]]
+                if not leaves:
+                    continue
+                lf = rng.choice(leaves)
+                w, signed = lf[2], lf[3]
+                lo, hi = (-(2 ** (w - 1)), 2 ** (w - 1) - 1) if signed else (0, 2 ** w - 1)
+                v = boundary(lo, hi, rng)
+                obj = m
+                parts = lf[0].split(".")
+                for q in parts[:-1]:
+                    obj = getattr(obj, q)
+                setattr(obj, parts[-1], v)
+                want = ("fixed", row["name"], field_values(m, row["leaves"]))
+                change = [lf[0] + "=", v]
+        except Exception:
+            continue
+        done += 1
+        ctx.note_case(("message-object-history", direction, str(pv)[:200], str(change)))
+        try:
+            got = view_impl(t, deser(bytes(m)))
+        except Exception as e:  # noqa
+            got = f"raises {type(e).__name__}"
+        if got != want:
+            ctx.violation("a message object serialised, changed in place and serialised again does not carry its current content",
+                          dict(direction=direction, message=pv, change=change, current_content=want, decoded=got))
+    ctx.coverage["message_object_histories"] = done
+
+
 def subroutine_object_history(ctx, t, n):
     """A SubroutineMessage built from a Subroutine OBJECT: message 1, change the object in place (app id setter,
     instructions[i] = ..., append), message 2 from the same object.  The second message must carry the object's
@@ -263,6 +332,7 @@ def run(ctx):
     except ImportError:
         pass
     msgs = gen_messages(ctx, t, n)
+    message_object_history(ctx, t, gen_messages(ctx, t, max(3, n // 3)))
     cases = {"host": [], "ret": []}
     meta = {"host": [], "ret": []}
     dist = {}
